@@ -18,7 +18,13 @@ ASSUMPTIONS = [
 ]
 
 
+def _bash_printer_skips(repo, res):
+    from vlib import rules_skips as SK, tables
+    SK.skips_rule(repo, res, tables.load("skips")["row"], only={q for q in SK.printers(repo) if q.startswith("bash::")})
+
+
 def run(repo, res, tier):
+    _bash_printer_skips(repo, res)
     sk_bash.cmd_rule(repo, res, tier)
     sk_bash.fresh_rule(repo, res, tier)
     sk_bash.matchfn_rule(repo, res, tier)
